@@ -21,6 +21,24 @@ PENDING_REASON = "check under construction (designed in DESIGN.md section 6); no
 ALL = ["C%02d" % i for i in range(1, 20)]
 
 CHECKS = {
+"C16": dict(
+  category="fault_enumeration",
+  text="Crash-consistency enumeration: for each generated valid spectrum file (numpy-style npy of every dtype/byte order/version/spelling, npy and text written by sfs) every truncation offset, every extension of 1..16 bytes in four content kinds and every single-token / shape edit of text is produced and handed to the real readers, which must reject all of them; the real view/fold/stat binaries are run on one damage per class and on prefixes the tool itself leaves when killed mid-write by the shim. Exhaustive per file within the size bound (<= 64 elements quick, <= 480 thorough); files are sampled.",
+  design_ref="DESIGN.md section 6 / C16",
+  note="A panic on a damaged file counts as rejection here (panics are C17). The oracle is applied only when the undamaged control is accepted by the same reader.",
+  technique="deterministic simulation with fault injection: exhaustive crash-point (truncation) and stale-tail enumeration on a simulated disk; process-level kill-at-byte-k via LD_PRELOAD shim"),
+"C07": dict(
+  category="exploration",
+  text="Seeded write-then-read-back histories of generated spectra (all value classes incl. NaN/inf/subnormal, 1..6 axes, precision 0..17) through the real writer over a short-writing SimWrite and the real readers over a chunk-scheduled SimRead / scratch files, plus text->npy->text; process-level pipelines producer(create|view|fold) -> {file, pipe} -> consumer(view|fold|stat) with shim-injected short writes and chunked reads. Fault-free configuration by design; sampling, not proof.",
+  design_ref="DESIGN.md section 6 / C07",
+  note="Tolerance for text is 0.5*10^-p plus representation slack; for non-finite values in text only acceptance and shape are demanded; byte-for-byte text->npy->text only when all printed tokens have <= 15 significant digits.",
+  technique="deterministic simulation: seeded storage histories (write, read back) under short-write / chunked-read schedules at library and process level"),
+"C19": dict(
+  category="exploration",
+  text="Every shape of the stated grid (1..5 axes x lengths 1..5, 3,905 shapes) x every axis incl. dims and dims+1 x every position incl. len and len+1 is visited; on each, seeded call histories (next/len/size_hint/clone continued 1..2*len+4 calls past the first None) are run against iter_indices, iter_axis, view iterators and iter_frequencies and compared call by call with a nested-loop row-major reference model; sum(axis) is compared with adding the views. The grid is exhaustive, the histories are sampled.",
+  design_ref="DESIGN.md section 6 / C19",
+  note="Weakest fit for the technique: there is no fault or schedule dimension; the simulator contributes call histories, reference model, minimisation and replay. Harness built with overflow checks on.",
+  technique="deterministic simulation: seeded operation histories on stateful iterators checked against an executable sequential reference model"),
 "C18": dict(
   category="fault_enumeration",
   text="Seeded simulation of the real readers/writers over simulated transports: for each generated workload the first-chunk length and the byte offset of an injected read/write error are swept exhaustively within the stated bounds (inputs <= 600 B quick / 2 KiB thorough, strided above), later chunks, buffer capacities, thread counts, BGZF layouts and EINTR/short-write/Ok(0) faults are sampled; the same scenarios run against the unmodified binary under a system-call shim. A clean run is evidence over the explored schedules and fault points, not a proof.",
